@@ -252,6 +252,8 @@ def check_trace_record(ctx, rec, case):
         reads = [[list(t[2]), [0] * len(t[2]), 1 if r["source_id"] in prefs else 0] for t, r in zip(cand, c["reads"])]
         for key, text in oracle(reads, kps, sorted(idx)):
             ctx.fail(f"whatshap phase, sample {s}, {rec['chromosome']}: {text}", case, key="pipeline-" + key)
+        if prefs and any(r[2] for r in reads):
+            ctx.dist("pipeline_preferred_reads", min(5, sum(r[2] for r in reads)))
         if len(sel) < len(cand):
             discarded = True
         ctx.dist("pipeline_selected_fraction", round(len(sel) / max(1, len(cand)), 1))
@@ -274,8 +276,10 @@ def pipeline_case(rng, idx):
     ns = rng.choice([1, 1, 2, 3])
     trio = ns == 3 and rng.random() < 0.7
     k = rng.choice([2, 3, 4, 5, 6]) if ns < 3 else rng.choice([3, 4, 5, 6, 7])
+    # a third of the non-trio runs also get a phased VCF as read input (pseudo reads from a preferred source)
     return {"seed": rng.randrange(1 << 30), "n_samples": ns, "trio": trio, "k": k,
-            "depth": [k + 2, 3 * k + 6], "n_variants": [4, 14], "idx": idx}
+            "depth": [k + 2, 3 * k + 6], "n_variants": [4, 14], "idx": idx,
+            "phased_input": (not trio) and rng.random() < 0.35}
 
 
 def run_pipeline_case(ctx, pc):
@@ -317,10 +321,17 @@ def run_pipeline_case(ctx, pc):
                 f.write("F1 S3 S1 S2 0 1\n")
             args += ["--ped", ped]
         args += [vcf, bam]
+        if pc.get("phased_input"):
+            # first pass: phase with a generous cap; its output is then an additional (preferred) read source
+            first = os.path.join(d, "first.vcf")
+            rc0, _, err0, _ = sim.whatshap(["phase", "--reference", fa, "-o", first, vcf, bam], ctx.overlay)
+            if rc0 == 0:
+                args.append(first)
         rc, out, err, recs = sim.whatshap(args, ctx.overlay, trace=os.path.join(d, "trace.jsonl"))
         case = {"pipeline": pc}
         ctx.evaluated()
-        ctx.dist("pipeline_kind", f"{pc['n_samples']} sample(s)" + (" trio" if pc["trio"] else ""))
+        ctx.dist("pipeline_kind", f"{pc['n_samples']} sample(s)" + (" trio" if pc["trio"] else "")
+                 + (" +phased VCF input" if pc.get("phased_input") else ""))
         if rc != 0:
             ctx.observe("whatshap phase failed on a simulated scenario: " + err.strip().splitlines()[-1][:200] if err.strip() else "rc!=0")
             return
@@ -358,14 +369,14 @@ def run(ctx):
     lib.flush()
 
     n_before = len(ctx.fails)
-    n_small = (2000 if ctx.quick else 20000) * ctx.scale
+    n_small = (5000 if ctx.quick else 40000) * ctx.scale
     for _ in range(n_small):
         lib.check(G.small_case(rng, 8 if ctx.quick else 9), True, "small")
-    for _ in range((100 if ctx.quick else 1000) * ctx.scale):
+    for _ in range((200 if ctx.quick else 1000) * ctx.scale):
         lib.check(G.malformed_case(rng), True, "malformed")
-    for _ in range((400 if ctx.quick else 4000) * ctx.scale):
+    for _ in range((1000 if ctx.quick else 8000) * ctx.scale):
         lib.check(G.medium_case(rng), False, "medium")
-    for _ in range((300 if ctx.quick else 2000) * ctx.scale):
+    for _ in range((500 if ctx.quick else 3000) * ctx.scale):
         lib.check(G.large_case(rng), False, "large")
     lib.flush()
     if not ctx.quick and not ctx.escalated:
@@ -376,6 +387,9 @@ def run(ctx):
         for case in G.exhaustive_cases(max_reads=3, npos=4):
             lib.check(case, True, "exhaustive"); cnt += 1
         for case in G.exhaustive_cases(max_reads=4, npos=3, ks=(1, 2, 3)):
+            if len(case["reads"]) == 4:
+                lib.check(case, True, "exhaustive"); cnt += 1
+        for case in G.exhaustive_cases(max_reads=4, npos=4, ks=(1, 2, 3), quals=(1,)):
             if len(case["reads"]) == 4:
                 lib.check(case, True, "exhaustive"); cnt += 1
         lib.flush()
@@ -395,6 +409,6 @@ def run(ctx):
                 if texts:
                     ctx.fails[i] = ("readselection: " + texts[0] + " (shrunk)", {"lib": small}, key)
 
-    n_pipe = (10 if ctx.quick else 60) * ctx.scale
+    n_pipe = (24 if ctx.quick else 120) * ctx.scale
     for i in range(n_pipe):
         run_pipeline_case(ctx, pipeline_case(rng, i))
